@@ -291,45 +291,52 @@ def r3_relation_identity(ctx, res):
 
 
 def r4_importer_split(ctx, res):
-    f = ctx.repo.func('_add', '_insert_sense_relations')
-    loc = f.module.loc(f.node)
-    key = 'sense-relation-split'
-    chain = None
-    for n in walk_no_nested(f.node):
-        if isinstance(n, ast.If) and 'target_id in sense_ids' == norm(n.test):
-            chain = n
-    res.inst(key, loc, 'three-way split on the target id')
-    if chain is None:
-        res.find(key, loc, 'the split of sense relations on `target_id in sense_ids` is gone')
-        return
-    b1 = norm(chain.body[0]) if chain.body else ''
-    ok1 = b1.startswith('s_s_rels.append(')
-    el = chain.orelse
-    ok2 = len(el) == 1 and isinstance(el[0], ast.If) and norm(el[0].test) == 'target_id in synset_ids' \
-        and el[0].body and norm(el[0].body[0]).startswith('s_ss_rels.append(')
-    ok3 = ok2 and len(el[0].orelse) >= 1 and isinstance(el[0].orelse[-1], ast.Raise) and 'Error' in norm(el[0].orelse[-1])
-    if not (ok1 and ok2 and ok3):
-        res.find(key, loc, 'sense relations are no longer split exhaustively: target in sense ids -> sense_relations, '
-                           'target in synset ids -> sense_synset_relations, otherwise wn.Error')
-    # the id sets cover every sense / synset of the lexicon (incl. external ones)
+    """the importer sends a sense relation to sense_relations iff its target is a sense id, to sense_synset_relations iff
+    a synset id, and raises otherwise - read off the effect summary of _insert_sense_relations"""
+    import re as _re
+    from ..speccheck import view
+    v = view(ctx, '_add', '_insert_sense_relations')
+    loc = v.loc()
     key = 'sense-relation-split:id-sets'
-    res.inst(key, loc, 'sense_ids / synset_ids built from all senses / synsets')
-    src = {}
-    for n in walk_no_nested(f.node):
-        if isinstance(n, ast.Assign) and isinstance(n.value, ast.SetComp) and isinstance(n.targets[0], ast.Name):
-            src[n.targets[0].id] = [norm(g.iter) for g in n.value.generators] + [norm(n.value.elt)]
-    if src.get('synset_ids') != ['_synsets(lexicon)', "ss['id']"] or src.get('sense_ids') != ['_entries(lexicon)', '_senses(e)', "s['id']"]:
-        res.find(key, loc, f'the id sets used for the split are built from {src}')
-    # table <-> target query pairing
+    res.inst(key, loc, 'sense ids / synset ids built from all senses / synsets of the lexicon (incl. external ones)')
+    syn = [r for r in v.rows if r[0] == 'call' and _re.match(r"^#\d+\.add\(\$1\['id'\]\)$", r[1]) and r[3] == ("for lexicon.get('synsets', [])",) and not r[2]]
+    sen = [r for r in v.rows if r[0] == 'call' and _re.match(r"^#\d+\.add\(\$2\['id'\]\)$", r[1])
+           and r[3] == ("for lexicon.get('entries', [])", "for $1.get('senses', [])") and not r[2]]
+    if len(syn) != 1 or len(sen) != 1:
+        res.find(key, loc, f'the id sets used for the split are no longer all synset ids and all sense ids of the lexicon: '
+                           f'{[(r[1], r[3]) for r in v.rows if r[0] == "call" and ".add(" in r[1]]}')
+        return
+    SYN, SEN = syn[0][1].split('.')[0], sen[0][1].split('.')[0]
+    rel_ctx = ("for lexicon.get('entries', [])", "for $1.get('senses', [])", "for $2.get('relations', [])")
+    key = 'sense-relation-split'
+    res.inst(key, loc, 'three-way split on the target id')
+    to_sense = [r for r in v.rows if r[0] == 'call' and '.append(' in r[1] and r[3] == rel_ctx and set(r[2]) == {f"$3['target'] in {SEN}"}]
+    to_syn = [r for r in v.rows if r[0] == 'call' and '.append(' in r[1] and r[3] == rel_ctx
+              and set(r[2]) == {f"$3['target'] in {SYN}", f"$3['target'] not in {SEN}"}]
+    err = [r for r in v.rows if r[0] == 'raise' and 'Error(' in r[1] and r[3] == rel_ctx
+           and set(r[2]) == {f"$3['target'] not in {SYN}", f"$3['target'] not in {SEN}"}]
+    if len(to_sense) != 1 or len(to_syn) != 1 or len(err) != 1:
+        res.find(key, loc, 'sense relations are no longer split exhaustively: target in sense ids -> sense_relations, '
+                           f'target in synset ids -> sense_synset_relations, otherwise wn.Error: '
+                           f'{[(r[1][:30], sorted(r[2])) for r in v.rows if r[3] == rel_ctx and r[0] in ("call", "raise")][:4]}')
+        return
+    L1, L2 = to_sense[0][1].split('.')[0], to_syn[0][1].split('.')[0]
     key = 'sense-relation-split:tables'
-    hp = None
-    for n in walk_no_nested(f.node):
-        if isinstance(n, ast.Assign) and isinstance(n.targets[0], ast.Name) and n.targets[0].id == 'hyperparams':
-            hp = [norm(e) for e in n.value.elts] if isinstance(n.value, (ast.List, ast.Tuple)) else None
-    res.inst(key, loc, f'{hp}')
-    want = ["('sense_relations', SENSE_QUERY, s_s_rels)", "('sense_synset_relations', SYNSET_QUERY, s_ss_rels)"]
-    if hp is not None and hp != want:
-        res.find(key, loc, f'relation lists are paired with tables/target queries as {hp}; expected {want}')
+    pairs = sorted({c for r in v.rows for c in r[3] if c.startswith("for [('sense_relations'") or c.startswith("for (('sense_relations'")})
+    execs = [r for r in v.rows if r[0] == 'call' and '.executemany(' in r[1]]
+    res.inst(key, loc, f'{pairs or [r[1][:60] for r in execs]}')
+    want = f"[('sense_relations', SENSE_QUERY, {L1}), ('sense_synset_relations', SYNSET_QUERY, {L2})]"
+    ok = bool(pairs) and all(c[4:] in (want, '(' + want[1:-1] + ')') for c in pairs)
+    if not ok:
+        # unrolled form: two statements, each with its own table / target query / list
+        t1 = [r for r in execs if 'INSERT INTO sense_relations' in r[1] and '({SENSE_QUERY}),({SENSE_QUERY})' in r[1].replace(' ', '')]
+        ok = False
+        blob = ' '.join(r[1] + ' '.join(r[3]) for r in v.rows)
+        if ('sense_relations' in blob and 'sense_synset_relations' in blob and L1 in blob and L2 in blob and not pairs):
+            ok = _re.search(r"sense_relations'?, SENSE_QUERY, " + _re.escape(L1), blob) is not None \
+                and _re.search(r"sense_synset_relations'?, SYNSET_QUERY, " + _re.escape(L2), blob) is not None
+    if not ok:
+        res.find(key, loc, f'relation lists are no longer paired with tables / target queries as {want}: {pairs}')
 
 
 def r5_dedupe(ctx, res):
